@@ -229,7 +229,7 @@ func c05(r *vlib.Run) int {
 	results, crashes := r.RunBatches("c05", cases, 250, 14, nil, nil)
 	r.Extra("worker_wall_s", time.Since(start).Seconds())
 	for _, cr := range crashes {
-		r.Violation("pipeline-crash", map[string]interface{}{"query": metas[cr.Index].Text, "table": metas[cr.Index].T,
+		r.Violation("pipeline-crash", map[string]interface{}{"query": metas[cr.Any()].Text, "table": metas[cr.Any()].T,
 			"stderr": vlib.Trunc(string(cr.Result.Stderr), 3000)})
 	}
 	for i, raw := range results {
